@@ -79,6 +79,7 @@ def run_cases(mod, ctx, driver_ok):
     """evaluate the stream; returns stats"""
     st = dict(evaluations=0, distinct=set(), tags={}, mismatches=[], specfails=[], samples=[], model_lines=0)
     batch = []
+    MP = getattr(mod, "MODEL_POST", None)
 
     def flush():
         if not batch:
@@ -95,6 +96,8 @@ def run_cases(mod, ctx, driver_ok):
             m = None
             if c.get("op") and driver_ok:
                 m = post_model(next(outs))
+                if MP is not None:
+                    m = MP(m)
                 st["model_lines"] += 1
             ok, exp = check_spec(mod, c, r)
             rec = None
